@@ -320,6 +320,11 @@ def get_type_hints(
             Whether to pull type hints from the signature of the object if
             none can be found via [`typing.get_type_hints`][]. (defaults True)
     """
+    # A parameterised user generic (`Box[int]`) declares nothing itself: the annotations
+    #   (and the constructor) are those of the class it was subscripted from.
+    generic = tp.get_origin(obj)
+    if inspect.isclass(generic) and issubclass(generic, tp.Generic):  # type: ignore[arg-type]
+        obj = generic
     try:
         hints = tp.get_type_hints(obj)
     except (NameError, TypeError):
